@@ -258,7 +258,10 @@ pub fn probe(args: &Args) {
     while any.len() < narb {
         let (_k, r) = all.choose(&mut rng).unwrap();
         let base = r.join(".");
-        let s = match rng.gen_range(0..11) {
+        let s = match rng.gen_range(0..13) {
+            // characters whose lower / upper case has another UTF-8 length, and characters IDNA treats as dots
+            11 => format!("{}.{}", ["\u{212A}", "\u{0130}x", "a\u{1E9E}", "\u{FB00}", "\u{2126}\u{212A}"].choose(&mut rng).unwrap(), base),
+            12 => format!("{}{}{}", synth(&mut rng), ["\u{3002}", "\u{FF0E}", "\u{FF61}", "\u{00AD}.", ".\u{200D}"].choose(&mut rng).unwrap(), base),
             // non-ASCII labels to the left of the rule (multi-byte characters shift byte and character offsets apart)
             9 => format!("{}.{}", ["b\u{fc}cher", "\u{5e02}", "m\u{fc}nchen", "\u{1F600}", "caf\u{e9}-\u{e9}\u{e9}"].choose(&mut rng).unwrap(), base),
             10 => format!("{}.{}.{}", synth(&mut rng), ["\u{e9}", "\u{5e02}\u{5e02}\u{5e02}", "stra\u{df}e"].choose(&mut rng).unwrap(), base),
